@@ -123,4 +123,146 @@ theorem S_leaves' (l r : Ty) :
     S H p l r = (flattenT l).all (fun x => (flattenT r).any (fun y => S H p x y)) :=
   S_leaves H p _ l r (Nat.le_refl _)
 
+theorem S_union_left (ls : List Ty) (r : Ty) :
+    S H p (.union ls) r = ls.all (fun i => S H p i r) := by
+  rw [S_leaves']
+  simp only [flattenT, flattenL_eq_flatMap, List.all_flatMap]
+  apply all_congr'
+  intro i _
+  rw [S_leaves' H p i r]
+
+theorem all_mono {α} {f g : α → Bool} {xs : List α} (h : ∀ x ∈ xs, f x = true → g x = true) :
+    xs.all f = true → xs.all g = true := by
+  simp only [List.all_eq_true]
+  intro hf x hx
+  exact h x hx (hf x hx)
+
+theorem any_mono {α} {f g : α → Bool} {xs : List α} (h : ∀ x ∈ xs, f x = true → g x = true) :
+    xs.any f = true → xs.any g = true := by
+  simp only [List.any_eq_true]
+  rintro ⟨x, hx, hf⟩
+  exact ⟨x, hx, h x hx hf⟩
+
+theorem all2_mono {f g : Ty → Ty → Bool} : ∀ {xs ys : List Ty},
+    (∀ x ∈ xs, ∀ y ∈ ys, f x y = true → g x y = true) → all2 f xs ys = true → all2 g xs ys = true
+  | [], _, _ => by simp [all2]
+  | _ :: _, [], _ => by simp [all2]
+  | x :: xs, y :: ys, h => by
+    simp only [all2, Bool.and_eq_true]
+    rintro ⟨h1, h2⟩
+    exact ⟨h x (by simp) y (by simp) h1, all2_mono (fun a ha b hb => h a (by simp [ha]) b (by simp [hb])) h2⟩
+
+theorem varCheck_mono {v} {f g : Ty → Ty → Bool} {x y : Ty}
+    (h1 : f x y = true → g x y = true) (h2 : f y x = true → g y x = true) :
+    varCheck v f x y = true → varCheck v g x y = true := by
+  cases v <;> simp only [varCheck, Bool.and_eq_true]
+  · rintro ⟨a, b⟩; exact ⟨h1 a, h2 b⟩
+  · exact h1
+  · exact h2
+
+theorem subInstance_mono (f g : Ty → Ty → Bool) (l r : Ty) (c d : Nat) (hl : l.isInstance = true)
+    (h : ∀ l' r', l'.size + r'.size < l.size + r.size → f l' r' = true → g l' r' = true) :
+    subInstance H f l r c d = true → subInstance H g l r c d = true := by
+  unfold subInstance
+  split
+  · split
+    · rename_i c1 x c2 y hm
+      have hs := mapTo_arg_size H l d hl c1 x hm
+      apply varCheck_mono <;> apply h <;> simp [Ty.size] <;> omega
+    · exact id
+  · exact id
+
+theorem subFromInstance_mono (f g : Ty → Ty → Bool) (l r : Ty) (c : Nat) (hl : l.isInstance = true)
+    (h : ∀ l' r', l'.size + r'.size < l.size + r.size → f l' r' = true → g l' r' = true) :
+    subFromInstance H f l c r = true → subFromInstance H g l c r = true := by
+  unfold subFromInstance
+  split
+  · exact subInstance_mono H f g l _ c _ hl h
+  · exact subInstance_mono H f g l _ c _ hl h
+  · exact id
+
+theorem subAtom_mono (f g : Ty → Ty → Bool) (l r : Ty)
+    (h : ∀ l' r', l'.size + r'.size < l.size + r.size → f l' r' = true → g l' r' = true) :
+    subAtom H true f l r = true → subAtom H false g l r = true := by
+  cases l with
+  | never => exact id
+  | none => exact id
+  | union _ => exact id
+  | inst c => exact subFromInstance_mono H f g _ r c rfl h
+  | gen c x0 => exact subFromInstance_mono H f g _ r c rfl h
+  | tuple ls =>
+    simp only [subAtom, subFromTuple]
+    split
+    · exact id
+    · split
+      · apply all_mono; intro li hli; apply h
+        have := size_le_sizeL hli; simp [Ty.size]; omega
+      · exact id
+    · rename_i rs
+      simp only [Bool.and_eq_true]
+      rintro ⟨h1, h2⟩
+      refine ⟨h1, all2_mono ?_ h2⟩
+      intro x hx y hy; apply h
+      have := size_le_sizeL hx; have := size_le_sizeL hy; simp [Ty.size]; omega
+    · exact id
+  | callable as ret =>
+    simp only [subAtom, subFromCallable]
+    split
+    · rename_i bs ret'
+      simp only [Bool.and_eq_true]
+      rintro ⟨⟨h1, h2⟩, h3⟩
+      refine ⟨⟨h _ _ (by simp [Ty.size]; omega) h1, h2⟩, all2_mono ?_ h3⟩
+      intro x hx y hy; apply h
+      have := size_le_sizeL hx; have := size_le_sizeL hy; simp [Ty.size]; omega
+    · apply h; simp [Ty.size]; omega
+    · apply h; simp [Ty.size]; omega
+    · exact id
+  | lit c v =>
+    simp only [subAtom]
+    split
+    · exact id
+    · apply h; simp [Ty.size]
+  | typeType x =>
+    simp only [subAtom, subFromTypeType]
+    split
+    · apply h; simp [Ty.size]; omega
+    · simp
+    · exact id
+    · exact id
+
+/-- a proper subtype is a subtype -/
+theorem proper_imp_S : ∀ (n : Nat) (l r : Ty), l.size + r.size ≤ n → S H true l r = true → S H false l r = true := by
+  intro n
+  induction n with
+  | zero => intro l r h; have := Ty.size_pos l; omega
+  | succ n ih =>
+    intro l r hn
+    by_cases hlu : l.isUnion = true
+    · cases l <;> simp [Ty.isUnion] at hlu
+      rename_i ls
+      rw [S_union_left, S_union_left]
+      apply all_mono
+      intro i hi
+      apply ih
+      have := size_le_sizeL hi; simp [Ty.size] at hn; omega
+    · have hlu : l.isUnion = false := by simpa using hlu
+      by_cases hru : r.isUnion = true
+      · cases r <;> simp [Ty.isUnion] at hru
+        rename_i rs
+        rw [S_union_right _ _ _ _ hlu, S_union_right _ _ _ _ hlu]
+        apply any_mono
+        intro x hx
+        apply ih
+        have := size_le_sizeL hx; simp [Ty.size] at hn; omega
+      · have hru : r.isUnion = false := by simpa using hru
+        rw [S_atom _ _ _ _ hlu hru, S_atom _ _ _ _ hlu hru]
+        simp only [Bool.or_eq_true]
+        rintro (h | h)
+        · exact Or.inl h
+        · right
+          refine subAtom_mono H _ _ l r ?_ h
+          intro l' r' hlt
+          exact ih l' r' (by omega)
+
+
 end Types
